@@ -55,7 +55,9 @@ type gSched struct {
 	Trace   []string
 }
 
-func newGSched() *gSched { return &gSched{byGid: map[string]*gThread{}, wake: make(chan struct{}, 1024)} }
+func newGSched() *gSched {
+	return &gSched{byGid: map[string]*gThread{}, wake: make(chan struct{}, 1024)}
+}
 
 func (s *gSched) notify() {
 	select {
@@ -251,14 +253,14 @@ func (s *gSched) release() {
 // ---------- cases ----------
 
 type c11ConcCase struct {
-	Conc     string     `json:"conc"` // "failover" | "swap"
-	Members  []string   `json:"members"`
-	Shape    string     `json:"shape"`           // failover: F0[...]; swap: the first generation
-	Gens     []string   `json:"gens,omitempty"`  // swap: shapes installed by the successive Swap calls
-	Threads  [][]string `json:"threads"`         // per goroutine: g<id> | h<id> ; swap: "w" = next Swap
-	SchedSeed uint64    `json:"sched_seed"`
-	Trace    string     `json:"schedule,omitempty"`
-	Observed []string   `json:"observed,omitempty"`
+	Conc      string     `json:"conc"` // "failover" | "swap"
+	Members   []string   `json:"members"`
+	Shape     string     `json:"shape"`          // failover: F0[...]; swap: the first generation
+	Gens      []string   `json:"gens,omitempty"` // swap: shapes installed by the successive Swap calls
+	Threads   [][]string `json:"threads"`        // per goroutine: g<id> | h<id> ; swap: "w" = next Swap
+	SchedSeed uint64     `json:"sched_seed"`
+	Trace     string     `json:"schedule,omitempty"`
+	Observed  []string   `json:"observed,omitempty"`
 }
 
 type c11Req struct {
@@ -407,8 +409,8 @@ func (c c11Rec) HasChunk(id desync.ChunkID) (bool, error) {
 	return b, err
 }
 func (c c11Rec) StoreChunk(ch *desync.Chunk) error { return c.m.StoreChunk(ch) }
-func (c c11Rec) Close() error                       { return c.m.Close() }
-func (c c11Rec) String() string                     { return c.m.String() }
+func (c c11Rec) Close() error                      { return c.m.Close() }
+func (c c11Rec) String() string                    { return c.m.String() }
 
 // member k never fails a request for id i (GetChunk: a valid object or none; no injected fault ever)
 func c11NeverFails(m *c11Member) bool {
@@ -424,7 +426,9 @@ func c11NeverFails(m *c11Member) bool {
 }
 
 func c11ConcPredicate(c *c11ConcCase, w []*c11Member, reqs []*c11Req, shape *c11Node) (fails []c11PolicyFail) {
-	bad := func(class, f string, a ...interface{}) { fails = append(fails, c11PolicyFail{class, fmt.Sprintf(f, a...)}) }
+	bad := func(class, f string, a ...interface{}) {
+		fails = append(fails, c11PolicyFail{class, fmt.Sprintf(f, a...)})
+	}
 	for _, r := range reqs {
 		c.Observed = append(c.Observed, fmt.Sprintf("t%d %s calls=%v closed=%v -> %s", r.Thread, r.Op, r.Calls, r.Closed, r.Result))
 		if strings.HasPrefix(r.Result, "PANIC") {
